@@ -32,6 +32,8 @@ def op_str(o):
         return 'P:%d:%d:%x%s' % (o['ev'], o['payload'], o.get('val', 0), scripts_str(o.get('scripts')))
     if k == 'Q':
         return 'Q:%d:%d' % (o['ev'], o['payload'])
+    if k == 'RP':
+        return 'RP:%d:%d:%x' % (o['ev'], o['n'], o.get('val', 0))
     if k == 'X':
         return 'X:%s:%x%s' % (o['mode'], o.get('val', 0), scripts_str(o.get('scripts')))
     if k in ('B', 'N', 'C', 'M'):
@@ -173,6 +175,8 @@ def parse_line(line):
             out.append(dict(op='P', ev=int(f[1]), payload=int(f[2]), val=int(f[3], 16), scripts=scripts))
         elif k == 'Q':
             out.append(dict(op='Q', ev=int(f[1]), payload=int(f[2])))
+        elif k == 'RP':
+            out.append(dict(op='RP', ev=int(f[1]), n=int(f[2]), val=int(f[3], 16)))
         elif k == 'X':
             out.append(dict(op='X', mode=f[1], val=int(f[2], 16) if len(f) > 2 else 0, scripts=scripts))
         elif k in ('B', 'N', 'C', 'M'):
